@@ -69,6 +69,8 @@ pub enum Rule {
     MustReject,
     /// vector / matrix dimension: 1..=4
     Dim { before: &'static str, after: &'static str },
+    /// the observation does not depend on the value of the hole (the hole only has to be an admissible element)
+    Fixed(&'static str),
 }
 
 pub struct Site {
@@ -123,6 +125,7 @@ pub const SITES: &[Site] = &[
           Rule::Size { min: 1, max: U64MAX, enum_ok: true, prefix: "len:", before: "", after: ",3" }, emit "pa[", ']'),
     site!("array_inner", "float pa[2][@];\n", Look::GlobalArray("pa"),
           Rule::Size { min: 1, max: U64MAX, enum_ok: true, prefix: "len:", before: "2,", after: "" }, emit "pa[2][", ']'),
+    site!("array_fromlist", "static const int pa[] = { 1, 2, @ };\n", Look::GlobalArray("pa"), Rule::Fixed("len:3")),
     site!("array_init", "static const int pa[@] = { 1, 2 };\n", Look::GlobalArray("pa"), Rule::ArrayInit),
     // ---- enum values: enums.rs + scopes.rs end_enum
     site!("enum", "enum PE { PV = @ };\n", Look::EnumValue("PV"), Rule::EnumVal, emit "PV = ", ','),
@@ -216,7 +219,7 @@ pub fn model_input(s: &Site) -> ModelInput {
         return ModelInput::None; // flow sites
     }
     match s.name {
-        "tbody_arith" | "rayquery" | "array_init" | "nonconst_use" | "localnonconst_use" | "flow_template" => ModelInput::None,
+        "tbody_arith" | "rayquery" | "array_init" | "array_fromlist" | "nonconst_use" | "localnonconst_use" | "flow_template" => ModelInput::None,
         "enum" | "enumnext" | "enum_after0" | "enum_ns" => ModelInput::EnumMember,
         _ => match s.look {
             // `return N` is converted to the return type; literals are folded by the type checker on the way
@@ -615,6 +618,13 @@ fn judge_rule(s: &Site, want: &Want, obs: &str) -> String {
             format!("FAIL:{} accepted a size that is not a compile-time constant: {}", s.name, obs)
         };
     }
+    if let Rule::Fixed(expected) = s.rule {
+        return if obs == expected {
+            "ok".into()
+        } else {
+            format!("FAIL:{} recorded {} where the declaration fixes {}", s.name, obs, expected)
+        };
+    }
     if let Rule::NeverConst = s.rule {
         return if obs == "notconst" || rejected {
             "ok".into()
@@ -787,7 +797,7 @@ fn judge_rule(s: &Site, want: &Want, obs: &str) -> String {
                 fail(format!("lod:{:08x}", expected))
             }
         }
-        Rule::MustReject | Rule::NeverConst => unreachable!(),
+        Rule::MustReject | Rule::NeverConst | Rule::Fixed(_) => unreachable!(),
     }
 }
 
